@@ -22,21 +22,48 @@ def run_native(script, args, timeout=1500):
 
 
 def report(pid, name, res, script):
-    """-> (violation lines, evidence entry, error or None)"""
+    """-> (violation lines, evidence entry, error or None).  A bad case may carry `kinds` (tags of what is wrong); kinds listed for this script in
+    KNOWN_FINDINGS.json are known findings: they are printed as KNOWN-FINDING lines by the caller (ev['known_finding_lines']) and do not make a violation;
+    any other kind in the same or another case still does."""
     if "error" not in res and not res.get("cases"):
         res = {"error": "no case could be run: " + "; ".join(res.get("errors", [])[:3])}
     if "error" in res:
         return [], {"what": name, "status": "error", "detail": res["error"]}, res["error"]
     rdir = os.environ.get("VERIF_REPLAY_DIR") or os.path.join(VERIF, "replay", "out")
     os.makedirs(rdir, exist_ok=True)
-    lines = []
-    for i, bc in enumerate(res.get("bad_cases", [])[:3]):
-        import re
-        path = os.path.join(rdir, f"{pid}_bounded_{re.sub('[^A-Za-z0-9_.-]+', '_', name)}_{i}.json")
-        json.dump(dict(property=pid, obligation=f"bounded:{name}", replay_cmd=f"/venv/bin/python bounded/{script} --replay {path}", **bc), open(path, "w"), indent=1)
-        lines.append(f"VIOLATION property={pid} replay={os.path.relpath(path, VERIF)} obligation=bounded:{name}")
+    try:
+        kf = [f for f in json.load(open(os.path.join(VERIF, "KNOWN_FINDINGS.json"))).get("findings", []) if f.get("property") == pid and f.get("bounded") == script]
+    except Exception:
+        kf = []
+    known_kinds = {f["kind"]: f for f in kf}
+    import re
+    lines, known_lines, n_new = [], [], 0
+    seen_known = {}
+    for bc in res.get("bad_cases", []):
+        kinds = bc.get("kinds")
+        new_kinds = [k for k in kinds if k not in known_kinds] if kinds is not None else None
+        for k in (kinds or []):
+            if k in known_kinds and k not in seen_known:
+                seen_known[k] = bc
+        if kinds is not None and not new_kinds:
+            continue
+        if n_new < 3:
+            path = os.path.join(rdir, f"{pid}_bounded_{re.sub('[^A-Za-z0-9_.-]+', '_', name)}_{n_new}.json")
+            d = dict(property=pid, obligation=f"bounded:{name}", replay_cmd=f"/venv/bin/python bounded/{script} --replay {path}", **bc)
+            if new_kinds is not None:
+                d["kinds"] = new_kinds
+                d["wrong"] = [w for w in bc.get("wrong", []) if any(w.startswith(k) for k in new_kinds)] or bc.get("wrong", [])
+            json.dump(d, open(path, "w"), indent=1)
+            lines.append(f"VIOLATION property={pid} replay={os.path.relpath(path, VERIF)} obligation=bounded:{name}")
+        n_new += 1
+    for k, bc in seen_known.items():
+        path = os.path.join(rdir, f"{pid}_known_{re.sub('[^A-Za-z0-9_.-]+', '_', k)}.json")
+        json.dump(dict(property=pid, obligation=f"bounded:{name}", known_finding=True, kinds=[k], replay_cmd=f"/venv/bin/python bounded/{script} --replay {path}", case=bc["case"],
+                       wrong=[w for w in bc.get("wrong", []) if w.startswith(k)]), open(path, "w"), indent=1)
+        known_lines.append(f"KNOWN-FINDING: property={pid} {known_kinds[k]['what']} (bounded:{name}, replay={os.path.relpath(path, VERIF)})")
     ev = {"what": name, "status": "bounded (NOT a proof)", "cases": res.get("cases"), "distinct_cases": res.get("distinct"), "checks": res.get("reads") or res.get("checks"),
-          "violating_cases": len(res.get("bad_cases", [])), "wall_s": res.get("wall_s"), "samples": res.get("samples", [])[:2], "errors": res.get("errors", [])[:3]}
+          "violating_cases": n_new, "cases_showing_only_known_findings": len([b for b in res.get("bad_cases", []) if b.get("kinds") is not None and all(k in known_kinds for k in b["kinds"])]),
+          "wall_s": res.get("wall_s"), "samples": res.get("samples", [])[:2], "errors": res.get("errors", [])[:3], "known_finding_lines": known_lines}
     return lines, ev, None
 
 
